@@ -1,13 +1,14 @@
-//! Per-property orchestration: which scenarios, how many runs, evidence, exit codes.
+//! Per-property orchestration: which scenarios, how many runs, evidence, exit codes,
+//! and the supervisor that turns a process abort into a reported violation.
 
-use std::time::Instant;
+use std::{path::PathBuf, process::Command, time::Instant};
 
 use serde_json::{json, Value};
 
 use crate::{
-	c07, c16,
+	c07, c16, c18,
 	evidence::{write_evidence, EvidenceInput},
-	harness::{self, report_violations, run_batch, BatchCfg, BatchResult, ReplayFile, Scenario, Tier},
+	harness::{self, plan_for, report_violations, run_batch, run_one, BatchCfg, BatchResult, ReplayFile, Scenario, Tier},
 	known,
 };
 
@@ -22,72 +23,158 @@ fn scale() -> f64 {
 	std::env::var("VERIF_SCALE").ok().and_then(|s| s.parse().ok()).unwrap_or(1.0)
 }
 
-pub fn run_scn<S: Scenario>(s: &S, runs: u64, tier: Tier, seed: u64, workers: usize, strict_teardown: bool, out: &mut Outcome) {
-	let runs = ((runs as f64) * scale()).max(1.0) as u64;
-	let det_n = match tier {
-		Tier::Quick => runs.min(400),
-		Tier::Thorough => runs.min(4000),
-	};
-	let cfg = BatchCfg {
-		seed,
-		runs,
-		workers,
-		tier,
-		samples: 3,
-		strict_teardown,
-		collect_digests_upto: det_n,
-		budget: None,
-	};
-	let res = run_batch(s, &cfg);
-	println!(
-		"  scenario {:<14} runs={:<8} ops={:<9} distinct_logs={:<8} nontrivial={:<8} states={:<7} faults={} wall={:.1}s",
-		res.scenario,
-		res.runs,
-		res.ops,
-		res.all_digests.len(),
-		res.nontrivial_digests.len(),
-		res.states.len(),
-		res.faults.values().sum::<u64>(),
-		res.wall.as_secs_f64()
-	);
-	let nv = report_violations(s, &cfg, &res);
-	out.violations += nv;
-	// determinism self-check: same seed, other worker count, fresh threads -> identical digests
-	if nv == 0 && det_n > 0 {
-		let cfg2 = BatchCfg {
-			runs: det_n,
-			workers: 3,
-			samples: 0,
-			..cfg.clone()
-		};
-		let res2 = run_batch(s, &cfg2);
-		let same = res2.digests == res.digests;
-		out.determinism.push(json!({
-			"scenario": s.name(),
-			"runs_compared": det_n,
-			"workers": [workers, 3],
-			"identical": same,
-		}));
-		if !same {
-			let first = res
-				.digests
-				.iter()
-				.zip(res2.digests.iter())
-				.find(|(a, b)| a != b)
-				.map(|(a, _)| a.0);
-			eprintln!(
-				"harness error: scenario {} is not deterministic (first differing run index {:?}); nothing it reports is believed",
-				s.name(),
-				first
-			);
-			out.harness_error = true;
-		}
-	}
-	out.batches.push(res);
+// ---------------------------------------------------------------------------------------------
+// Scenario registry
+// ---------------------------------------------------------------------------------------------
+
+pub trait Visitor {
+	type Out;
+	fn visit<S: Scenario>(self, s: &S) -> Self::Out;
 }
 
-fn finish(property: &str, tier: Tier, seed: u64, out: Outcome, rule: &str, assumptions: Vec<String>, extra: Value, start: Instant) -> i32 {
-	// KNOWN-FINDING lines
+pub fn with_scenario<V: Visitor>(name: &str, v: V) -> Option<V::Out> {
+	Some(match name {
+		"c07_m1" => v.visit(&c07::C07M1),
+		"c16_history" => v.visit(&c16::C16),
+		"c18_gc" => v.visit(&c18::C18Gc),
+		"c18_intern" => v.visit(&c18::C18Intern),
+		"c18_teardown_c07" => v.visit(&c18::Teardown {
+			inner: c07::C07M1,
+			name: "c18_teardown_c07",
+		}),
+		"c18_teardown_c16" => v.visit(&c18::Teardown {
+			inner: c16::C16,
+			name: "c18_teardown_c16",
+		}),
+		_ => return None,
+	})
+}
+
+/// (scenario, quick runs, thorough runs)
+pub fn scenarios_of(property: &str) -> Vec<(&'static str, u64, u64)> {
+	match property {
+		"C07" => vec![("c07_m1", 40_000, 3_000_000)],
+		"C16" => vec![("c16_history", 30_000, 2_000_000)],
+		"C18" => vec![
+			("c18_gc", 12_000, 600_000),
+			("c18_intern", 40_000, 3_000_000),
+			("c18_teardown_c07", 8_000, 400_000),
+			("c18_teardown_c16", 6_000, 300_000),
+		],
+		_ => vec![],
+	}
+}
+
+fn texts(property: &str) -> (&'static str, Vec<String>) {
+	match property {
+		"C07" => (
+			"each case is one seeded plan: a generated world of 2-7 files over /w, /w/sub and three library directories (shadowing, aliases, strict and lazy import edges, text and binary files) plus 3-25 operations (new/drop state, import/importstr/importbin through snippet, Rust API or TLA with a field projection, write/remove files, sticky and per-operation faults). A case is non-trivial when at least one injected fault actually fired at the resolver seam; distinct = distinct SHA-256 digests of the run's event log (seam calls, traces, results).",
+			vec![
+				"the model of the file DSL (jrsim/src/c07.rs, Model) is correct for the programs the generator emits".into(),
+				"scenario c07_m1 replaces FileImportResolver by a simulated disk; path search of the real resolver is covered by c07_m2 only".into(),
+				"guarded accessors (file_cache_entries) reflect the real cache; they are read-only".into(),
+			],
+		),
+		"C16" => (
+			"each case is one seeded plan: a target program from the template pool (60% drawn from the families whose output could expose iteration order: field listings, suggestion lists with tied scores, several simultaneous errors, TLA mismatches), a hash salt (iteration order of every map keyed by interned strings), a pre-interned string pool, 0-30 earlier evaluations on the same thread and states (succeeding, failing, cut off by a frame limit), and the state that evaluates the target (fresh / long-lived / second). Oracle: byte equality of output-or-error text and of the std.trace event list with a pristine-thread reference (salt 0, no history). Non-trivial = salt differs from the reference salt or a frame-limit cut-off fired in the history; distinct = distinct event-log digests.",
+			vec![
+				"salted content hashing (guarded hook) permutes the same maps that address hashing perturbs in production".into(),
+				"the reference run itself is correct only up to determinism: this check does not judge what the output should be".into(),
+			],
+		),
+		"C18" => (
+			"c18_gc: one case = a seeded history of 1-20 steps (evaluate a pool program on one of two states with or without a frame limit, keep/force the lazy result, drop a state, drop a kept value, collect) executed twice on one thread; after each round everything is dropped and cycles collected: the tracked-object count must not grow from round one to round two and must stay within the handful of thread-local singletons, and the interner pool must not grow between rounds. c18_intern: one case = up to 80 interner operations (intern str/bytes, From<char>, clone, drop, cast_bytes, cast_str, context hand-over between three OS threads) checked after every step against a multiset model (equality <=> content equality, hash agreement, contents unchanged, cast_str fails iff invalid UTF-8, pool size = distinct live contents, pool drains). c18_teardown_*: the C07/C16 plans executed twice with only the teardown oracle armed. Non-trivial = cyclic garbage existed before collection / a hand-over, drop or rejected cast happened / a fault fired; distinct = distinct event-log digests.",
+			vec![
+				"count_thread_tracked()/collect_thread_cycles() of jrsonnet-gcmodule are taken as the definition of 'tracked'".into(),
+				"objects pinned by thread-local singletons (the empty object, the default state) are not garbage: the oracle is no growth between two executions of the same history plus a small absolute bound".into(),
+				"hand-over is exercised in the legal regime only (one context, re-entered on threads that never hosted another one)".into(),
+			],
+		),
+		_ => ("", vec![]),
+	}
+}
+
+// ---------------------------------------------------------------------------------------------
+// Running
+// ---------------------------------------------------------------------------------------------
+
+struct RunScn<'a> {
+	runs: u64,
+	tier: Tier,
+	seed: u64,
+	workers: usize,
+	out: &'a mut Outcome,
+}
+impl Visitor for RunScn<'_> {
+	type Out = ();
+	fn visit<S: Scenario>(self, s: &S) {
+		let runs = ((self.runs as f64) * scale()).max(1.0) as u64;
+		let det_n = match self.tier {
+			Tier::Quick => runs.min(400),
+			Tier::Thorough => runs.min(4000),
+		};
+		let cfg = BatchCfg {
+			seed: self.seed,
+			runs,
+			workers: self.workers,
+			tier: self.tier,
+			samples: 3,
+			strict_teardown: false,
+			collect_digests_upto: det_n,
+			budget: None,
+			first: 0,
+		};
+		let res = run_batch(s, &cfg);
+		println!(
+			"  scenario {:<17} runs={:<8} ops={:<9} distinct_logs={:<8} nontrivial={:<8} states={:<7} faults={} wall={:.1}s",
+			res.scenario,
+			res.runs,
+			res.ops,
+			res.all_digests.len(),
+			res.nontrivial_digests.len(),
+			res.states.len(),
+			res.faults.values().sum::<u64>(),
+			res.wall.as_secs_f64()
+		);
+		let nv = report_violations(s, &cfg, &res);
+		self.out.violations += nv;
+		// determinism self-check: same seed, other worker count, fresh threads -> identical digests
+		if nv == 0 && det_n > 0 {
+			let cfg2 = BatchCfg {
+				runs: det_n,
+				workers: 3,
+				samples: 0,
+				..cfg.clone()
+			};
+			let res2 = run_batch(s, &cfg2);
+			let same = res2.digests == res.digests;
+			self.out.determinism.push(json!({
+				"scenario": s.name(),
+				"runs_compared": det_n,
+				"workers": [self.workers, 3],
+				"identical": same,
+			}));
+			if !same {
+				let first = res
+					.digests
+					.iter()
+					.zip(res2.digests.iter())
+					.find(|(a, b)| a != b)
+					.map(|(a, _)| a.0);
+				eprintln!(
+					"harness error: scenario {} is not deterministic (first differing run index {:?}); nothing it reports is believed",
+					s.name(),
+					first
+				);
+				self.out.harness_error = true;
+			}
+		}
+		self.out.batches.push(res);
+	}
+}
+
+fn finish(property: &str, tier: Tier, seed: u64, out: Outcome, extra: Value, start: Instant) -> i32 {
+	let (rule, assumptions) = texts(property);
 	let mut printed = std::collections::BTreeSet::new();
 	for b in &out.batches {
 		for (id, (n, what)) in &b.known {
@@ -122,7 +209,8 @@ fn finish(property: &str, tier: Tier, seed: u64, out: Outcome, rule: &str, assum
 	}
 }
 
-pub fn check(property: &str, tier: Tier, seed: u64, workers: usize) -> i32 {
+/// The in-process check (run as a supervised child of `check`).
+pub fn check_inner(property: &str, tier: Tier, seed: u64, workers: usize) -> i32 {
 	let start = Instant::now();
 	let mut out = Outcome {
 		batches: Vec::new(),
@@ -130,69 +218,321 @@ pub fn check(property: &str, tier: Tier, seed: u64, workers: usize) -> i32 {
 		determinism: Vec::new(),
 		harness_error: false,
 	};
-	let q = tier == Tier::Quick;
-	match property {
-		"C07" => {
-			run_scn(&c07::C07M1, if q { 40_000 } else { 3_000_000 }, tier, seed, workers, false, &mut out);
-			finish(
-				property,
+	let scns = scenarios_of(property);
+	if scns.is_empty() {
+		eprintln!("unknown or unclaimed property {property}");
+		return 2;
+	}
+	for (name, q, t) in scns {
+		let runs = if tier == Tier::Quick { q } else { t };
+		with_scenario(
+			name,
+			RunScn {
+				runs,
 				tier,
 				seed,
-				out,
-				"each case is one seeded plan: a generated world of 2-7 files over /w, /w/sub and three library directories (shadowing, aliases, strict and lazy import edges, text and binary files) plus 3-25 operations (new/drop state, import/importstr/importbin through snippet, Rust API or TLA with a field projection, write/remove files, sticky and per-operation faults). A case is non-trivial when at least one injected fault actually fired at the resolver seam; distinct = distinct SHA-256 digests of the run's event log (seam calls, traces, results).",
-				vec![
-					"the model of the file DSL (jrsim/src/c07.rs, Model) is correct for the programs the generator emits".into(),
-					"scenario c07_m1 replaces FileImportResolver by a simulated disk; path search of the real resolver is covered by c07_m2 only".into(),
-					"guarded accessors (file_cache_entries) reflect the real cache; they are read-only".into(),
-				],
-				json!({}),
-				start,
-			)
+				workers,
+				out: &mut out,
+			},
+		);
+	}
+	let mut extra = json!({});
+	if property == "C18" && tier == Tier::Thorough {
+		let miri = miri_interner(seed);
+		if miri.get("violation").and_then(Value::as_bool) == Some(true) {
+			out.violations += 1;
 		}
-		"C16" => {
-			run_scn(&c16::C16, if q { 30_000 } else { 2_000_000 }, tier, seed, workers, false, &mut out);
-			finish(
-				property,
-				tier,
-				seed,
-				out,
-				"each case is one seeded plan: a target program from the template pool (60% drawn from the families whose output could expose iteration order: field listings, suggestion lists with tied scores, several simultaneous errors, TLA mismatches), a hash salt (iteration order of every map keyed by interned strings), a pre-interned string pool, 0-30 earlier evaluations on the same thread and states (succeeding, failing, cut off by a frame limit), and the state that evaluates the target (fresh / long-lived / second). Oracle: byte equality of output-or-error text and of the std.trace event list with a pristine-thread reference (salt 0, no history). Non-trivial = salt differs from the reference salt or a frame-limit cut-off fired in the history; distinct = distinct event-log digests.",
-				vec![
-					"salted content hashing (guarded hook) permutes the same maps that address hashing perturbs in production".into(),
-					"the reference run itself is correct only up to determinism: this check does not judge what the output should be".into(),
-				],
-				json!({}),
-				start,
-			)
-		}
-		_ => {
-			eprintln!("unknown or unclaimed property {property}");
-			2
-		}
+		extra = json!({ "miri": miri });
+	}
+	finish(property, tier, seed, out, extra, start)
+}
+
+// ---------------------------------------------------------------------------------------------
+// Supervisor: a process abort (panic in a destructor, native stack overflow, allocation failure)
+// must become a reported violation with a replay file, not a dead check.
+// ---------------------------------------------------------------------------------------------
+
+fn self_exe() -> PathBuf {
+	std::env::current_exe().expect("current exe")
+}
+fn normal_exit(status: &std::process::ExitStatus) -> Option<i32> {
+	match status.code() {
+		Some(c @ (0 | 1 | 2)) => Some(c),
+		_ => None,
 	}
 }
 
-pub fn replay(file: &ReplayFile) -> i32 {
-	match file.scenario.as_str() {
-		"c07_m1" => harness::replay(&c07::C07M1, file),
-		"c16_history" => harness::replay(&c16::C16, file),
-		other => {
-			eprintln!("unknown scenario {other}");
-			2
+pub fn check(property: &str, tier: Tier, seed: u64, workers: usize) -> i32 {
+	let status = Command::new(self_exe())
+		.args(["check-inner", property, tier.name()])
+		.env("VERIF_SEED", seed.to_string())
+		.env("VERIF_WORKERS", workers.to_string())
+		.status();
+	let status = match status {
+		Ok(s) => s,
+		Err(e) => {
+			eprintln!("harness error: cannot spawn the check process: {e}");
+			return 2;
 		}
+	};
+	if let Some(c) = normal_exit(&status) {
+		return c;
 	}
+	println!("jrsim: the check process died abnormally ({status}); looking for the run that kills it");
+	abort_hunt(property, tier, seed, workers, &format!("{status}"))
 }
 
-pub fn digests(scenario: &str, seed: u64, runs: u64, workers: usize) -> i32 {
-	fn go<S: Scenario>(s: &S, seed: u64, runs: u64, workers: usize) -> i32 {
+fn range_child(scn: &str, tier: Tier, seed: u64, workers: usize, lo: u64, hi: u64) -> Option<i32> {
+	let status = Command::new(self_exe())
+		.args(["range", scn, tier.name(), &lo.to_string(), &hi.to_string()])
+		.env("VERIF_SEED", seed.to_string())
+		.env("VERIF_WORKERS", workers.to_string())
+		.stdout(std::process::Stdio::null())
+		.stderr(std::process::Stdio::null())
+		.status()
+		.ok()?;
+	normal_exit(&status)
+}
+
+struct RangeRun {
+	tier: Tier,
+	seed: u64,
+	workers: usize,
+	lo: u64,
+	hi: u64,
+}
+impl Visitor for RangeRun {
+	type Out = i32;
+	fn visit<S: Scenario>(self, s: &S) -> i32 {
 		let cfg = BatchCfg {
+			seed: self.seed,
+			runs: self.hi,
+			first: self.lo,
+			workers: self.workers,
+			tier: self.tier,
+			samples: 0,
+			strict_teardown: false,
+			collect_digests_upto: 0,
+			budget: None,
+		};
+		let res = run_batch(s, &cfg);
+		i32::from(!res.violations.is_empty())
+	}
+}
+pub fn range(scn: &str, tier: Tier, seed: u64, workers: usize, lo: u64, hi: u64) -> i32 {
+	with_scenario(scn, RangeRun { tier, seed, workers, lo, hi }).unwrap_or(2)
+}
+
+fn scratch_dir() -> PathBuf {
+	let d = harness::verif_root().join(".scratch").join(format!("{}", std::process::id()));
+	let _ = std::fs::create_dir_all(&d);
+	d
+}
+
+/// Does executing this plan in a child process kill the child?
+fn plan_kills_child(scn: &str, plan: &Value) -> bool {
+	let dir = scratch_dir();
+	let path = dir.join("candidate.json");
+	if std::fs::write(&path, serde_json::to_string(plan).unwrap_or_default()).is_err() {
+		return false;
+	}
+	let status = Command::new(self_exe())
+		.args(["run-plan", scn])
+		.arg(&path)
+		.stdout(std::process::Stdio::null())
+		.stderr(std::process::Stdio::null())
+		.status();
+	match status {
+		Ok(s) => normal_exit(&s).is_none(),
+		Err(_) => false,
+	}
+}
+
+struct AbortShrink<'a> {
+	scn: &'a str,
+	tier: Tier,
+	seed: u64,
+	index: u64,
+}
+impl Visitor for AbortShrink<'_> {
+	type Out = Option<(Value, u64)>;
+	fn visit<S: Scenario>(self, s: &S) -> Self::Out {
+		let mut plan = plan_for(s, self.seed, self.index, self.tier);
+		if !plan_kills_child(self.scn, &serde_json::to_value(&plan).ok()?) {
+			return None;
+		}
+		let mut tried = 0u64;
+		'outer: loop {
+			for cand in s.shrink(&plan) {
+				if tried >= 250 {
+					break 'outer;
+				}
+				tried += 1;
+				if plan_kills_child(self.scn, &serde_json::to_value(&cand).ok()?) {
+					plan = cand;
+					continue 'outer;
+				}
+			}
+			break;
+		}
+		Some((serde_json::to_value(&plan).ok()?, tried))
+	}
+}
+
+struct RunPlan<'a> {
+	plan: &'a Value,
+}
+impl Visitor for RunPlan<'_> {
+	type Out = i32;
+	fn visit<S: Scenario>(self, s: &S) -> i32 {
+		let Ok(plan) = serde_json::from_value::<S::Plan>(self.plan.clone()) else {
+			return 2;
+		};
+		let out = run_one(s, &plan, false, false);
+		i32::from(out.violation.is_some())
+	}
+}
+pub fn run_plan(scn: &str, path: &str) -> i32 {
+	let Ok(text) = std::fs::read_to_string(path) else {
+		return 2;
+	};
+	let Ok(plan) = serde_json::from_str::<Value>(&text) else {
+		return 2;
+	};
+	with_scenario(scn, RunPlan { plan: &plan }).unwrap_or(2)
+}
+
+fn abort_hunt(property: &str, tier: Tier, seed: u64, workers: usize, status: &str) -> i32 {
+	let start = Instant::now();
+	for (name, q, t) in scenarios_of(property) {
+		let runs = ((if tier == Tier::Quick { q } else { t }) as f64 * scale()).max(1.0) as u64;
+		if range_child(name, tier, seed, workers, 0, runs).is_some() {
+			continue;
+		}
+		// bisect the run index range
+		let (mut lo, mut hi) = (0u64, runs);
+		while hi - lo > 1 {
+			let mid = lo + (hi - lo) / 2;
+			if range_child(name, tier, seed, workers, lo, mid).is_none() {
+				hi = mid;
+			} else if range_child(name, tier, seed, workers, mid, hi).is_none() {
+				lo = mid;
+			} else {
+				eprintln!("harness error: the abort in scenario {name} does not reproduce on either half of runs {lo}..{hi}");
+				let _ = std::fs::remove_dir_all(scratch_dir());
+				return 2;
+			}
+		}
+		let found = with_scenario(
+			name,
+			AbortShrink {
+				scn: name,
+				tier,
+				seed,
+				index: lo,
+			},
+		)
+		.flatten();
+		let _ = std::fs::remove_dir_all(scratch_dir());
+		let Some((plan, tried)) = found else {
+			eprintln!("harness error: run {lo} of scenario {name} kills a batch but not a single-run child");
+			return 2;
+		};
+		let dir = harness::verif_root().join("replays");
+		let _ = std::fs::create_dir_all(&dir);
+		let path = dir.join(format!("{property}-{name}-{seed}-{lo}.json"));
+		let file = ReplayFile {
+			v: 1,
+			property: property.to_owned(),
+			scenario: name.to_owned(),
+			oracle: "process-abort".to_owned(),
+			signature: "abnormal-termination".to_owned(),
 			seed,
-			runs,
-			workers,
+			run: lo,
+			mode: "child-process".to_owned(),
+			strict_teardown: false,
+			detail: format!("executing this plan terminates the process abnormally ({status}): a panic that cannot unwind (in a destructor / thread-local teardown / extern \"C\"), a native stack overflow or an allocation failure"),
+			shrink_candidates_tried: tried,
+			plan,
+		};
+		let _ = std::fs::write(&path, serde_json::to_string_pretty(&file).unwrap_or_default());
+		println!("violation: property={property} scenario={name} run={lo} oracle=process-abort");
+		println!("detail: {}", file.detail);
+		println!("VIOLATION property={property} replay={}", path.display());
+		// minimal evidence so that the file exists and is valid
+		let (rule, assumptions) = texts(property);
+		let fake = BatchResult {
+			scenario: name.to_owned(),
+			property: property.to_owned(),
+			runs: lo + 1,
+			nontrivial_digests: [1u64, 2].into_iter().collect(),
+			samples: vec![json!({"run": lo, "plan": file.plan, "note": "this plan kills the process"})],
+			components: json!({}),
+			..Default::default()
+		};
+		write_evidence(&EvidenceInput {
+			property,
+			tier,
+			seed,
+			rule,
+			assumptions,
+			batches: &[fake],
+			extra: json!({"aborted": true, "status": status}),
+			wall_s: start.elapsed().as_secs_f64(),
+			violations: 1,
+			determinism: json!([]),
+		});
+		return 1;
+	}
+	eprintln!("harness error: the check process died ({status}) but no scenario batch reproduces it in isolation");
+	2
+}
+
+// ---------------------------------------------------------------------------------------------
+
+struct Replay<'a>(&'a ReplayFile);
+impl Visitor for Replay<'_> {
+	type Out = i32;
+	fn visit<S: Scenario>(self, s: &S) -> i32 {
+		harness::replay(s, self.0)
+	}
+}
+pub fn replay(file: &ReplayFile) -> i32 {
+	if file.oracle == "process-abort" {
+		return if plan_kills_child(&file.scenario, &file.plan) {
+			let _ = std::fs::remove_dir_all(scratch_dir());
+			println!("the plan terminates a child process abnormally, as recorded");
+			println!("VIOLATION property={} replay=<this file>", file.property);
+			1
+		} else {
+			let _ = std::fs::remove_dir_all(scratch_dir());
+			println!("not reproduced");
+			2
+		};
+	}
+	with_scenario(&file.scenario, Replay(file)).unwrap_or_else(|| {
+		eprintln!("unknown scenario {}", file.scenario);
+		2
+	})
+}
+
+struct Digests {
+	seed: u64,
+	runs: u64,
+	workers: usize,
+}
+impl Visitor for Digests {
+	type Out = i32;
+	fn visit<S: Scenario>(self, s: &S) -> i32 {
+		let cfg = BatchCfg {
+			seed: self.seed,
+			runs: self.runs,
+			first: 0,
+			workers: self.workers,
 			tier: Tier::Quick,
 			samples: 0,
 			strict_teardown: false,
-			collect_digests_upto: runs,
+			collect_digests_upto: self.runs,
 			budget: None,
 		};
 		let res = run_batch(s, &cfg);
@@ -201,17 +541,50 @@ pub fn digests(scenario: &str, seed: u64, runs: u64, workers: usize) -> i32 {
 		}
 		0
 	}
-	match scenario {
-		"c07_m1" => go(&c07::C07M1, seed, runs, workers),
-		"c16_history" => go(&c16::C16, seed, runs, workers),
-		other => {
-			eprintln!("unknown scenario {other}");
-			2
-		}
-	}
+}
+pub fn digests(scenario: &str, seed: u64, runs: u64, workers: usize) -> i32 {
+	with_scenario(scenario, Digests { seed, runs, workers }).unwrap_or(2)
 }
 
 pub fn worker(_args: &[String]) -> i32 {
 	eprintln!("no worker scenarios yet");
 	2
+}
+
+/// Thorough tier: the interner history interpreter under Miri (UB, leaks, data races).
+fn miri_interner(seed: u64) -> Value {
+	let dir = harness::verif_root().join("sim");
+	let out = Command::new("cargo")
+		.current_dir(&dir)
+		.env("MIRIFLAGS", "-Zmiri-disable-isolation")
+		.args(["+nightly", "miri", "run", "--offline", "-p", "interner-sim", "--"])
+		.arg(format!("{}", seed % 1_000_000))
+		.args(["300", "40"])
+		.output();
+	match out {
+		Ok(o) => {
+			let stdout = String::from_utf8_lossy(&o.stdout).into_owned();
+			let stderr = String::from_utf8_lossy(&o.stderr).into_owned();
+			let ok = o.status.success();
+			let ran = stdout.contains("interner-sim:") || stdout.contains("VIOLATION") || stderr.contains("Undefined Behavior");
+			if !ok && ran {
+				println!(
+					"miri: interner history failed:\n{stdout}\n{}",
+					stderr.lines().rev().take(30).collect::<Vec<_>>().into_iter().rev().collect::<Vec<_>>().join("\n")
+				);
+				let dirp = harness::verif_root().join("replays");
+				let _ = std::fs::create_dir_all(&dirp);
+				let path = dirp.join(format!("C18-miri-{seed}.txt"));
+				let _ = std::fs::write(&path, format!("{stdout}\n{stderr}"));
+				println!("VIOLATION property=C18 replay={}", path.display());
+			} else if !ok {
+				// Miri could not be started (toolchain problem): a harness limitation, not a verdict
+				println!("miri: could not run ({}); skipped", stderr.lines().last().unwrap_or(""));
+			} else {
+				println!("  miri: {}", stdout.lines().last().unwrap_or(""));
+			}
+			json!({"ran": ran, "ok": ok, "violation": !ok && ran, "summary": stdout.lines().last().unwrap_or("")})
+		}
+		Err(e) => json!({"ran": false, "error": e.to_string()}),
+	}
 }
